@@ -440,6 +440,7 @@ func c11EvalRead(c *Ctx, cs Case) {
 		afero.WriteFile(mem, path, stored, 0o644)
 	}
 	rec := newRecFs(mem)
+	rec.chunk = int(cs.I("chunk")) // the file delivers at most that many bytes per Read (0: as many as asked for)
 	oldDir := attributes.Efivars
 	attributes.Efivars = dir
 	defer func() { attributes.Efivars = oldDir }()
@@ -981,9 +982,18 @@ func c11Gen(c *Ctx) {
 			binary.LittleEndian.PutUint32(file, m)
 			file = append(file, values[k]...)
 			c11EvalRead(c, Case{"op": "read", "class": "mask-" + mk, "dir": dirs[i%len(dirs)], "name": hx([]byte(d.name)), "guid": hx(wireGUID(d.guid)), "required": int64(req), "file": hx(file)})
+			if i%3 == 0 {
+				// the same read on a filesystem whose files deliver 1, 2 or 3 bytes per Read (both APIs)
+				ch := int64(1 + (i/3)%3)
+				c11EvalRead(c, Case{"op": "read", "class": "mask-" + mk + fmt.Sprintf("/chunk%d", ch), "dir": dirs[i%len(dirs)], "name": hx([]byte(d.name)), "guid": hx(wireGUID(d.guid)), "required": int64(req), "file": hx(file), "chunk": ch})
+				c11EvalRead(c, Case{"op": "read", "api": "legacy", "class": "mask-" + mk + fmt.Sprintf("/chunk%d", ch), "dir": dirs[i%len(dirs)], "name": hx([]byte(d.name)), "guid": hx(wireGUID(d.guid)), "required": int64(0), "file": hx(file), "chunk": ch})
+			}
 		}
 		for _, short := range []string{"absent", "-", "07", "070000"} {
 			c11EvalRead(c, Case{"op": "read", "class": "short-or-absent", "dir": dirs[i%len(dirs)], "name": hx([]byte(d.name)), "guid": hx(wireGUID(d.guid)), "required": int64(req), "file": short})
+			if i%3 == 0 && short != "absent" {
+				c11EvalRead(c, Case{"op": "read", "class": "short-or-absent/chunk1", "dir": dirs[i%len(dirs)], "name": hx([]byte(d.name)), "guid": hx(wireGUID(d.guid)), "required": int64(req), "file": short, "chunk": int64(1)})
+			}
 		}
 	}
 	// ---- the legacy by-name API (attributes.WriteEfivars / ReadEfivars): the library derives the vendor GUID from the
